@@ -1,15 +1,37 @@
 #!/venv/bin/python
-"""Markdown table of the independently written breaking changes and which sub-checks flag them."""
-import glob, json, os
+"""Markdown table of the independently written breaking changes and which sub-checks flag them.
+With --write the table at the end of DESIGN.md section 9.5 is replaced."""
+import glob
+import json
+import os
+import sys
+
+VERIF = os.path.dirname(os.path.dirname(os.path.abspath(__file__)))
 rows = []
-for mp in sorted(glob.glob("/verif/seeded/*/meta.json")):
+bad = []
+for mp in sorted(glob.glob(os.path.join(VERIF, "seeded", "C??-?", "meta.json"))):
     m = json.load(open(mp))
     name = os.path.basename(os.path.dirname(mp))
-    notes = ""
-    np_ = os.path.join(os.path.dirname(mp), "notes.md")
     c = m.get("checks", {}).get(m["property"], {})
-    rows.append((name, m.get("demo_rc_unchanged"), m.get("demo_rc_changed"), c.get("rc"), ", ".join(s.split(".", 1)[1] for s in c.get("subchecks", []))))
-print("| change | demo unchanged / changed | quick tier exit | flagged by |")
-print("|---|---|---|---|")
-for r in rows:
-    print(f"| {r[0]} | {r[1]} / {r[2]} | {r[3]} | {r[4]} |")
+    subs = ", ".join(s.split(".", 1)[1] for s in c.get("subchecks", []))
+    hist = m.get("history", "")
+    note = ("strengthened: " + hist) if hist else ""
+    if c.get("rc") != 1 or m.get("demo_rc_unchanged") not in (0, None) or m.get("demo_rc_changed") in (0,):
+        bad.append((name, c.get("rc"), m.get("demo_rc_unchanged"), m.get("demo_rc_changed")))
+    rows.append(f"| {name} | {m.get('needs_to_manifest', '')} | {subs} | {note} |")
+table = "| change | needs, in order to manifest | flagged by (quick tier) | note |\n|---|---|---|---|\n" + "\n".join(rows) + "\n"
+if "--write" in sys.argv:
+    p = os.path.join(VERIF, "DESIGN.md")
+    s = open(p).read()
+    a = s.index("| change | needs, in order to manifest |")
+    b = a
+    lines = s[a:].split("\n")
+    n = 0
+    while n < len(lines) and lines[n].startswith("|"):
+        n += 1
+    b = a + len("\n".join(lines[:n])) + 1
+    open(p, "w").write(s[:a] + table + s[b:])
+    print(f"{len(rows)} rows written; not flagged / demo inconsistent: {bad}")
+else:
+    print(table)
+    print(bad, file=sys.stderr)
